@@ -52,8 +52,23 @@ def globals_digest():
                     continue
                 d[k] = deep(v)
             mods[name] = d
+    import logging, locale, signal, random as _random, gc, time
+    root = logging.getLogger()
+
+    def logger_state(lg):
+        return [lg.level, lg.disabled, getattr(lg, "propagate", None), [type(h).__name__ for h in getattr(lg, "handlers", [])], [type(f).__name__ for f in getattr(lg, "filters", [])]]
+    other = {"logging.root": logger_state(root), "logging.disable": logging.root.manager.disable,
+             "logging.loggers": dict((n, logger_state(lg)) for n, lg in sorted(logging.root.manager.loggerDict.items()) if isinstance(lg, logging.Logger)),
+             "logging.class": logging.getLoggerClass().__name__, "logging.raiseExceptions": logging.raiseExceptions,
+             "locale": list(locale.getlocale()), "environ": sorted(os.environ.items()), "cwd": os.getcwd(),
+             "signals": [repr(signal.getsignal(s)) for s in (signal.SIGINT, signal.SIGTERM, signal.SIGPIPE, signal.SIGALRM)] if threading.current_thread() is threading.main_thread() else [],
+             "recursionlimit": sys.getrecursionlimit(), "switchinterval": sys.getswitchinterval(), "random": hashlib.sha1(repr(_random.getstate()).encode()).hexdigest(),
+             "hooks": [sys.excepthook is sys.__excepthook__, sys.displayhook is sys.__displayhook__, threading.excepthook is threading.__excepthook__ if hasattr(threading, "__excepthook__") else None],
+             "gc": [gc.isenabled(), list(gc.get_threshold())], "tz": list(time.tzname), "trace": [sys.gettrace() is None, sys.getprofile() is None],
+             "json": [json.dumps.__module__, json.JSONEncoder.default.__qualname__ if hasattr(json.JSONEncoder.default, "__qualname__") else "", json.loads.__module__],
+             "threads": threading.active_count(), "umask": None}
     ctx = decimal.getcontext()
-    amb = {"prec": ctx.prec, "rounding": ctx.rounding, "Emin": ctx.Emin, "Emax": ctx.Emax, "capitals": ctx.capitals,
+    amb = {"other": other, "prec": ctx.prec, "rounding": ctx.rounding, "Emin": ctx.Emin, "Emax": ctx.Emax, "capitals": ctx.capitals,
            "traps": sorted(repr(k) for k, v in ctx.traps.items() if v), "flags_sticky": None,
            "sys.path": list(sys.path), "filters": [repr(f) for f in warnings.filters]}
     return dig([mods, amb])
@@ -68,6 +83,10 @@ OTHER = {"2": "AV:N/AC:L/Au:N/C:P/I:P/A:C", "3": "CVSS:3.1/AV:N/AC:L/PR:N/UI:N/S
 
 
 class CopyBehavesDifferently(Exception):
+    pass
+
+
+class ComparisonChangedAnOperand(Exception):
     pass
 
 
@@ -104,8 +123,38 @@ def accessor(obj, ver, name):
                         operands.append(k(text))
                     except Exception:  # noqa - not a vector of that class
                         pass
-        for o in operands:
-            res += [bool(obj == o), bool(o == obj), bool(obj != o), bool(o != obj)]
+        # re-spelled twins of the object itself (equal objects that were written differently): fields reversed, one Not Defined field
+        # swapped for another absent metric's, every absent metric spelled Not Defined, every Not Defined field dropped
+        try:
+            import importlib
+            consts = importlib.import_module("cvss.constants" + ver)
+            names = list(consts.METRICS_ABBREVIATIONS)
+            nd = "ND" if ver == "2" else "X"
+            pre, fields = ("", obj.vector.split("/")) if ver == "2" else (obj.vector.split("/")[0] + "/", obj.vector.split("/")[1:])
+            have = [f.split(":")[0] for f in fields]
+            absent = [m for m in names if m not in have and m not in consts.METRICS_MANDATORY]
+            ndf = [f for f in fields if f.endswith(":" + nd)]
+            texts = [pre + "/".join(reversed(fields)), pre + "/".join(fields + [m + ":" + nd for m in absent]), pre + "/".join(f for f in fields if f not in ndf)]
+            for k_, f in enumerate(ndf[:3]):
+                if absent:
+                    texts.append(pre + "/".join([x for x in fields if x != f] + [absent[k_ % len(absent)] + ":" + nd]))
+            for text in texts:
+                try:
+                    operands.append(CLS[ver](text))
+                    operands.append(CLS[ver](text))          # twice: once compared obj-first, once twin-first (consecutive positions)
+                except Exception:  # noqa
+                    pass
+        except Exception:  # noqa - the tables are only used to find names to spell; without them there are simply fewer operands
+            pass
+        state0 = proj(obj)
+        for k_, o in enumerate(operands):
+            if k_ % 2:          # which way round comes first alternates (a comparison is a read-only use of *both* operands)
+                r4 = [bool(o != obj), bool(o == obj), bool(obj != o), bool(obj == o)]
+                res += [r4[3], r4[1], r4[2], r4[0]]
+            else:
+                res += [bool(obj == o), bool(o == obj), bool(obj != o), bool(o != obj)]
+            if proj(obj) != state0:          # checked after every operand: a later comparison may put things back
+                raise ComparisonChangedAnOperand()
         res.append(sum(1 for o in operands if isinstance(o, tuple(CLS.values())) and o in [obj]))
         # a value behaves the same after being copied (copy, deepcopy, pickle round trips); where it cannot be copied nothing is claimed
         import pickle
